@@ -1,3 +1,58 @@
-(* C06 — statements are added when the corresponding facts file lands *)
-From SV Require Import Bytes Text.
-Theorem C06_placeholder : True. Proof. exact I. Qed.
+(* C06 — every script the filter factory generates is valid and self-sufficient.
+
+   What is proved here is the part of C06 that no test can settle: caller-supplied values can never
+   change the structure of the script.  Model: factory/Text.v ([fquote] = FiltersSet.__quote,
+   [quote_list] = __quote_list, [quote_if_necessary]) and sieve/Lexer.v (the lexer of the parser that
+   reads the script back).  Proofs: factory/TextFacts.v.  For EVERY byte string v and every text that
+   follows it, the quoted form of v is exactly one string token, and a quoted list is bracket, string
+   tokens separated by commas, bracket; the token's content unescapes to v.
+   The per-kind assembly of __create_filter (which tags, which require) is not modelled: validity,
+   strict validity and require coverage of whole generated scripts are checked on the implementation
+   with the strict validator, and skeleton independence is checked by re-lexing with the model lexer.
+   Values that start with a double or single quote are taken as already quoted by the factory
+   (quote_if_necessary, documented behaviour pinned by the suite) and are outside the claim. *)
+From Coq Require Import String.
+From Coq Require Import List NArith Bool Arith.
+From SV Require Import Bytes Lexer Text TextFacts.
+Import ListNotations.
+Local Open Scope nat_scope.
+
+(* the quoted form of ANY value lexes as exactly one string token, whatever follows *)
+Theorem C06_value_is_one_string_token :
+  forall (pos : nat) (v : bytes) (rest : list N),
+  next_token pos (quote v ++ rest) =
+  LTok {| t_kind := TString; t_val := quote v; t_pos := pos |} rest.
+Proof. exact TextFacts.next_token_quote. Qed.
+Print Assumptions C06_value_is_one_string_token.
+
+(* the string scanner consumes exactly the quoted form *)
+Theorem C06_string_rule_length :
+  forall (v : bytes) (rest : list N),
+  scan_string (quote v ++ rest) = Some (Datatypes.length (quote v)).
+Proof. exact TextFacts.scan_string_quote. Qed.
+Print Assumptions C06_string_rule_length.
+
+(* unescaping the token's content gives back the value: nothing added, nothing lost *)
+Theorem C06_content_is_the_value :
+  forall v : bytes, unescape_q (escape_q v) = v.
+Proof. exact TextFacts.unescape_escape. Qed.
+Print Assumptions C06_content_is_the_value.
+
+(* a quoted list of ANY values: bracket, quoted items separated by commas, bracket; then the lexer continues with what follows *)
+Theorem C06_list_token_structure :
+  forall (vs : list bytes) (pos : nat) (rest : list N),
+  vs <> [] ->
+  next_n (2 * Datatypes.length vs + 1) pos (quote_list vs ++ rest) =
+  Some
+    ((TLeftBracket, [91%N]) :: commas (map fquote vs) ++ [(TRightBracket, [93%N])],
+     pos + Datatypes.length (quote_list vs), rest).
+Proof. exact TextFacts.next_n_quote_list. Qed.
+Print Assumptions C06_list_token_structure.
+
+(* a hostile value stays inside its string literal (computed on the model lexer) *)
+Example C06_injection_attempt :
+  next_n 5 0 (quote_list [bs "a""] { discard; } #"; bs "b\"] ++ bs " { keep; }") =
+  Some ([(TLeftBracket, [91%N]); (TString, quote (bs "a""] { discard; } #")); (TComma, [44%N]);
+         (TString, quote (bs "b\")); (TRightBracket, [93%N])],
+        length (quote_list [bs "a""] { discard; } #"; bs "b\"]), bs " { keep; }").
+Proof. vm_compute. reflexivity. Qed.
